@@ -249,7 +249,7 @@ Lemma h_maxq_v : forall x, Q2R (maxq_v Qops x) = maxq_v Rops (QR x).
 Proof. intro. unfold maxq_v. now rewrite h_nth, h_argmax, !(h_map (sq Qops) (sq Rops) h_sq). Qed.
 Lemma h_maxq_g : forall x, QR (maxq_g Qops x) = maxq_g Rops (QR x).
 Proof.
-  intro. unfold maxq_g. cbv zeta. rewrite h_argmax, (h_map (sq Qops) (sq Rops) h_sq), <- (h_weights (length x) 0), map_length.
+  intro. unfold maxq_g. cbv zeta. rewrite h_argmax, (h_map (sq Qops) (sq Rops) h_sq), !map_length, <- (h_weights (length x) 0).
   apply h_map2. intros. now homs.
 Qed.
 
@@ -266,5 +266,5 @@ Lemma h_cons_coord_v : forall s v d x, Q2R (cons_coord_v Qops s v d x) = cons_co
 Proof. intros. unfold cons_coord_v. homs. now rewrite h_nth. Qed.
 Lemma h_cons_coord_g : forall s d x, QR (cons_coord_g Qops s d x) = cons_coord_g Rops (Q2R s) d (QR x).
 Proof.
-  intros. unfold cons_coord_g. rewrite <- (h_weights (length x) 0), map_length. apply h_map2. intros. now homs.
+  intros. unfold cons_coord_g. rewrite map_length, <- (h_weights (length x) 0). apply h_map2. intros. now homs.
 Qed.
